@@ -144,6 +144,8 @@ def run_case(ns, mon, c):
     try:
         if ident == "ce":
             x = rng.uniform(-4, 4, (c["N"], c["C"])); t = T(rng.integers(0, c["C"], c["N"]))
+            if c["seed"] % 3 == 0:
+                x = x + rng.choice([0.0, 50.0, -300.0, 900.0, -900.0], (c["N"], 1))      # moderate logits inside every row, rows at very different levels
             red = c["reduction"]
             res, nel = both([x], lambda a: nn.CrossEntropyLoss(reduction=red)(a, t), lambda a: nn.NLLLoss(reduction=red)(sg.log_softmax(a, 1), t))
         elif ident == "bcewl":
@@ -152,6 +154,9 @@ def run_case(ns, mon, c):
             res, nel = both([x], lambda a: nn.BCEWithLogitsLoss(reduction=red)(a, t), lambda a: nn.BCELoss(reduction=red)(sg.sigmoid(a), t), 1e-6, 1e-6)
         elif ident == "logsoftmax":
             x = rng.uniform(-4, 4, tuple(c["shape"]))
+            if c["seed"] % 3 == 0 and len(c["shape"]) >= 2:
+                oshape = list(c["shape"]); oshape[c["dim"]] = 1
+                x = x + rng.choice([0.0, 50.0, -300.0, 900.0, -900.0], tuple(oshape))        # slices along `dim` at very different levels
             res, nel = both([x], lambda a: sg.log_softmax(a, c["dim"]), lambda a: sg.softmax(a, c["dim"]).log(), 1e-6, 1e-6)
         elif ident == "linear":
             xs = c["xshape"]
@@ -222,6 +227,16 @@ def run_case(ns, mon, c):
             ds = range(len(c["shape"])) if dim is None else ([dim] if isinstance(dim, int) else dim)
             cnt = int(np.prod([c["shape"][d_] for d_ in ds]))
             res, nel = both([x], lambda a: a.mean(dim, c["keepdims"]), lambda a: a.sum(dim, c["keepdims"]) / cnt)
+            if c["seed"] % 3 == 0:
+                # the same identity for integer / bool operands (labels, masks: `(pred == y).mean()`), values only
+                xi = rng.integers(-5, 6, tuple(c["shape"])) if c["seed"] % 2 else (rng.integers(0, 2, tuple(c["shape"])) > 0)
+                try:
+                    ma = T(xi.copy()).mean(dim, c["keepdims"])
+                    mb = T(xi.copy()).sum(dim, c["keepdims"]) * (1.0 / cnt)
+                    if ma.shape != mb.shape or not np.allclose(np.asarray(ma.data, dtype=np.float64), np.asarray(mb.data, dtype=np.float64), rtol=1e-6, atol=1e-6):
+                        res.append(("value", f"integer operand: mean {np.asarray(ma.data).ravel()[:3].tolist()} vs sum/count {np.asarray(mb.data).ravel()[:3].tolist()}"))
+                except Exception:
+                    pass
         elif ident == "stack":
             arrs = [rng.standard_normal(tuple(c["shape"])) for _ in range(c["n"])]
             d_ = c["dim"]
